@@ -82,6 +82,8 @@ def sample_lists(tier, seed, keys=("a", "b"), max_pairs=None):
     pairs and triples"""
     rng = random.Random(seed)
     objs = objects(keys)
+    for s_ in STRUCTURED:
+        yield s_
     for o in objs:
         yield [o]
     core = [{}] + [{keys[0]: v} for v in VALUES]
@@ -92,6 +94,28 @@ def sample_lists(tier, seed, keys=("a", "b"), max_pairs=None):
     for _ in range(n):
         k = rng.choice((2, 2, 3))
         yield [rng.choice(objs) for _ in range(k)]
+
+
+def addr(n, **extra):
+    return {"street": f"{n} Main st.", "city": "Springfield", "zip": 10000 + n, **extra}
+
+
+# structured inputs: sibling objects with the same keys (merged into one model whatever the policy), required / optional / differently
+# typed fields on either side, literal sets around the documented limits, comma-containing strings
+STRUCTURED = [
+    [{"id": 1, "home": addr(1, floor=1.5), "work": addr(2, floor=7)}, {"id": 2, "home": addr(3, floor=2.5), "work": addr(4)}],
+    [{"id": 1, "home": addr(1, floor=1), "work": addr(2, floor="x")}, {"id": 2, "home": addr(3), "work": addr(4, floor=None)}],
+    [{"p": {"a": 1, "b": 2, "c": 3}, "q": [{"a": 1, "b": 2, "c": 3}, {"a": 1, "b": 2}]}],
+    [{"p": {"a": 1, "b": "s", "c": [1]}, "q": {"a": 2.5, "b": None, "c": []}}],
+    [{"tags": [f"t{i}" for i in range(15)]}, {"tags": ["t1", "t2"]}],
+    [{"tags": ["t1", "t2"]}, {"tags": [f"t{i}" for i in range(15)]}, {"tags": ["t3"]}],
+    [{"tags": [f"t{i}" for i in range(14)]}, {"tags": ["t14", "zz"]}],
+    [{"s": "a"}, {"s": "b"}, {"s": "a,b"}],
+    [{"s": "b,a"}, {"s": "a"}, {"s": "b"}],
+    [{"s": "..."}, {"s": "x" * 25}],
+    [{"v": [1, "1", None]}, {"v": [2.5]}, {"v": []}],
+    [{"m": {"k1": {"z": 1}}, "n": {"k1": {"z": "s"}, "k2": None}}],
+]
 
 
 def jdump(x):
